@@ -100,6 +100,15 @@ pub fn check_stream(c: &StreamCase) -> Check {
         ensure!(alone[0] == *m, "framing:differs-from-decoded-alone", "message {} ({}) differs from its stand-alone decoding", i, spec.kind());
     }
 
+    // (1b) the same bytes delivered in short reads must decode to the same list
+    {
+        let step = if with_tail.len() > 50_000 { 2048 + c.cut_selectors.len() } else { 1 + c.cut_selectors.len() % 37 };
+        let mut r = crate::runner::Chunked::new(&with_tail, step);
+        let again = no_panic("decode_messages", || decode_messages(&mut r))?
+            .map_err(|e| Fail::new("framing:wellformed-stream-rejected-short-reads", format!("reader delivering {} bytes per read: {:?}", step, e)))?;
+        ensure!(again == decoded, "framing:depends-on-read-chunking", "decode_messages over a reader delivering {} bytes per read differs from the Cursor decode", step);
+    }
+
     // (3) the same through an LDM record (unless the bytes happen to look compressed: 'BZ' at 4..6)
     if !(stream.len() >= 6 && &stream[4..6] == b"BZ") {
         let rec = Record::new(stream.clone());
